@@ -92,3 +92,147 @@ PROPS["C17"] = {
 NOT_APPLICABLE = [
     {"property_id": "C11", "reason": "quantifies over XML documents on disk parsed by quick-xml into HashMaps; no unit carrying the property is within reach of bounded symbolic execution (DESIGN.md C11)"},
 ]
+
+PROPS["C18"] = {
+    "level": "model_checking",
+    "level_text": "Bounded model checking of Argument::to_real_value over the complete value domains: every kind, every value variant, presence of "
+                  "fixed-point data, all 2^32 f32 quantisations (NaN, inf, negative, subnormal), all i32/i64 offsets and all values of the "
+                  "variant's width; oracle recomputes the double-precision product and does the integer part in i128. No loop, so no unwind bound.",
+    "level_note": "One harness per (integer variant x offset width); CBMC's IEEE-754 float encoding is trusted for the f64 multiply and the "
+                  "float->int cast (--nan-check on).",
+    "functions": ["Argument::to_real_value", "Argument::log_v", "Argument::value_as_f64"],
+    "bounds": "none on values: all bit patterns of value, quantisation and offset per harness; kind/presence symbolic",
+    "outside": "nothing within the function's input domain (names/units/type-info flags do not influence it)",
+    "assumptions": COMMON_ASSUME,
+    "trusted_base": ["CBMC floating-point encoding"],
+    "harnesses": [
+        H("c18::c18_non_integer_values_yield_nothing", timeout=300, what="non-integer / 128-bit values x all kinds: None, no panic"),
+        H("c18::c18_i32_off32", timeout=900, what="I32 value, i32 offset, all f32 quantisations"),
+        H("c18::c18_u8_off32", timeout=900, what="U8 value, i32 offset"),
+        H("c18::c18_u16_off64", timeout=900, what="U16 value, i64 offset"),
+        H("c18::c18_i8_off64", timeout=900, what="I8 value, i64 offset"),
+        H("c18::c18_i8_off32", "thorough", 1800), H("c18::c18_i16_off32", "thorough", 1800), H("c18::c18_i16_off64", "thorough", 1800),
+        H("c18::c18_i32_off64", "thorough", 1800), H("c18::c18_i64_off32", "thorough", 3600), H("c18::c18_i64_off64", "thorough", 3600),
+        H("c18::c18_u8_off64", "thorough", 1800), H("c18::c18_u16_off32", "thorough", 1800), H("c18::c18_u32_off32", "thorough", 1800),
+        H("c18::c18_u32_off64", "thorough", 1800), H("c18::c18_u64_off32", "thorough", 3600), H("c18::c18_u64_off64", "thorough", 3600),
+    ],
+}
+
+_c13_quick = ["c13_bool", "c13_u16", "c13_s32", "c13_f32", "c13_u128", "c13_string", "c13_raw", "c13_u16_raw", "c13_u8_string_u32",
+              "c13_empty_list", "c13_fixed_point_s32_no_panic", "c13_fixed_point_u64_no_panic"]
+_c13_all = ["c13_bool", "c13_u8", "c13_u16", "c13_u32", "c13_u64", "c13_u128", "c13_s8", "c13_s16", "c13_s32", "c13_s64", "c13_s128",
+            "c13_f32", "c13_f64", "c13_string", "c13_raw", "c13_u16_raw", "c13_string_u32", "c13_bool_f64", "c13_raw_string",
+            "c13_u8_string_u32", "c13_s16_s16_s16", "c13_empty_list", "c13_fixed_point_s32_no_panic", "c13_fixed_point_u32_no_panic",
+            "c13_fixed_point_s64_no_panic", "c13_fixed_point_u64_no_panic"]
+PROPS["C13"] = {
+    "level": "model_checking",
+    "level_text": "Bounded model checking of construct_arguments per concrete signal-type list: payload bytes, payload length (0 .. exact size + 2) and "
+                  "byte order are symbolic, so every 'too short at position k', 'exact' and 'trailing bytes' case and every value is covered by the "
+                  "solver; the oracle is an independent field-by-field decoder on the byte array.",
+    "level_note": "Type lists are enumerated (all 15 supported single kinds, 5 pairs/triples, the empty list); declared string/raw lengths are "
+                  "bounded by 3 when they fit the buffer. fmt::format and from_utf8 stubbed (String::from_utf8's validation is modelled). "
+                  "Fixed-point kinds: only absence of panics.",
+    "functions": ["parse::construct_arguments", "parse::dlt_uint", "parse::dlt_sint", "parse::dlt_fint", "parse::dlt_fixed_point"],
+    "bounds": "type lists of <= 3 entries from the catalogue; payload <= exact size + 2 bytes (<= 18 bytes); string/raw declared length <= 3 when in range",
+    "outside": "type lists outside the catalogue (the per-type code is list-independent except for the running offset, which the pair/triple lists exercise); "
+               "strings/raw longer than 3 bytes",
+    "assumptions": COMMON_ASSUME + [STUB_FMT, STUB_UTF8],
+    "trusted_base": [],
+    "harnesses": [H("c13::" + n, "quick" if n in _c13_quick else "thorough", 900, what="type list " + n[4:],
+                    allow_unsat_covers=(["payload refused"] if n == "c13_empty_list" else [])) for n in _c13_all],
+}
+
+PROPS["C09"] = {
+    "level": "model_checking",
+    "level_text": "The filter decision procedure is decided as a solver query over all criteria at once: extended header present/absent, every message "
+                  "type and level (incl. Invalid(0..255)), every minimum level number, each id set absent/present, arbitrary membership answers "
+                  "(uninterpreted oracle that also asserts the right key is looked up in the right set), arbitrary i64 id counts vs set sizes 0/1. "
+                  "Conversions DltFilterConfig -> ProcessedDltFilterConfig are decided for all Option<u8> levels.",
+    "level_note": "HashSet::contains is replaced by an uninterpreted oracle (std's SipHash/hashbrown lookup is trusted base); RandomState::new is "
+                  "replaced by fixed keys; non-empty Vec->HashSet conversion (std FromIterator) is trusted. The consumed length of filtered messages is "
+                  "checked in C04's harnesses.",
+    "functions": ["parse::filtered_out", "ExtendedHeader::skip_with_level", "ProcessedDltFilterConfig::from(DltFilterConfig)",
+                  "ProcessedDltFilterConfig::from(&DltFilterConfig)", "dlt::u8_to_log_level"],
+    "bounds": "id sets of size 0 or 1 (size only matters through len() vs the counts); id strings empty (membership is abstracted)",
+    "outside": "real hash lookups for non-empty sets; sets with more than one element",
+    "assumptions": COMMON_ASSUME + ["HashSet::contains answers are arbitrary booleans (sound over-approximation of any set contents)",
+                                    "minimum levels built directly as LogLevel::Invalid(_) are outside the configuration space (only absence of panics is checked)"],
+    "trusted_base": ["std HashSet lookup", "std FromIterator for HashSet"],
+    "harnesses": [
+        H("c09::c09_skip_with_level_all", timeout=300, what="level ordering incl. invalid levels, all message types"),
+        H("c09::c09_config_conversion_owned", timeout=600, what="owned conversion, all Option<u8> levels, 8 presence combinations"),
+        H("c09::c09_config_conversion_borrowed", timeout=600, what="borrowed conversion, all Option<u8> levels, 8 presence combinations"),
+        H("c09::c09_filtered_out_decision_table", timeout=900, what="decision table: criteria absent / present-with-empty-set, all types, levels, counts"),
+    ],
+}
+
+
+PROPS["C01"] = {
+    "level": "model_checking", "level_text": "wip", "level_note": "wip", "not_claimed": True,
+    "functions": [], "bounds": "", "outside": "", "assumptions": COMMON_ASSUME, "trusted_base": [],
+    "harnesses": [H("c01::" + n, "quick", 900) for n in ["c01_p_nonverbose_min", "c01_p_nonverbose_ext_storage_be", "c01_p_control_le",
+        "c01_p_verbose_bool_le", "c01_p_verbose_u32_named_be_storage", "c01_p_verbose_string_le", "c01_p_nettrace_le", "c01_p_nettrace_be", "c01_probe_storage_fwdstub"]],
+}
+
+PROPS["C06"] = {
+    "level": "model_checking", "level_text": "wip", "level_note": "wip", "not_claimed": True,
+    "functions": [], "bounds": "", "outside": "", "assumptions": COMMON_ASSUME, "trusted_base": [],
+    "harnesses": [H("c06::" + n, "quick", 900) for n in ["c06_search_real_memmem_8", "c06_junk_1", "c06_junk_2", "c06_junk_3", "c06_junk_partial_d",
+                  "c06_junk_partial_dlt", "c06_junk_partial_ddl", "c06_stream_with_junk_between"]],
+}
+
+
+import json as _json, os as _os
+_cat = _json.load(open(_os.path.join(_os.path.dirname(_os.path.abspath(__file__)), "catalogue.json")))
+_w = ["c02w_storage_header", "c02w_standard_header", "c02w_extended_header",
+      "c02w_payload_nonverbose_control", "c02w_payload_nettrace_le", "c02w_payload_nettrace_be", "c02w_payload_verbose_concat"]
+_d = ["c02d_standard_header_all_bytes", "c02d_extended_header_all_bytes", "c02d_storage_header_fields"]
+PROPS["C02"] = {
+    "level": "model_checking", "level_text": "wip", "level_note": "wip", "not_claimed": True,
+    "functions": [], "bounds": "", "outside": "", "assumptions": COMMON_ASSUME, "trusted_base": [],
+    "harnesses": [H("c02w::" + n, "quick", 900) for n in _w] + [H("c02d::" + n, "quick", 900) for n in _d]
+                 + [H(e["name"], e["tier"], 900) for e in _cat["w_arg"]],
+}
+
+_c04 = ["c04_nonverbose_min_nofilter", "c04_nonverbose_ext_storage_nofilter", "c04_nonverbose_ext_storage_dropall", "c04_nonverbose_min_dropall",
+        "c04_control_nofilter", "c04_control_allnone", "c04_verbose_bool_nofilter", "c04_verbose_bool_level", "c04_verbose_string_storage_nofilter",
+        "c04_nettrace_nofilter", "c04_skipper_storage_shapes", "c04_validated_payload_length_all"]
+PROPS["C04"] = {
+    "level": "model_checking", "level_text": "wip", "level_note": "wip", "not_claimed": True,
+    "functions": [], "bounds": "", "outside": "", "assumptions": COMMON_ASSUME, "trusted_base": [],
+    "harnesses": [H("c04::" + n, "quick", 1200) for n in _c04],
+}
+_c05 = ["c05_nonverbose_min", "c05_control_storage_0_16", "c05_control_storage_16_31", "c05_verbose_bool_allfields_0_14", "c05_verbose_bool_allfields_14_31",
+        "c05_verbose_string_0_12", "c05_verbose_string_12_27", "c05_verbose_noargs_shortids", "c05_nettrace_storage_0_16", "c05_nettrace_storage_16_37"]
+PROPS["C05"] = {
+    "level": "model_checking", "level_text": "wip", "level_note": "wip", "not_claimed": True,
+    "functions": [], "bounds": "", "outside": "", "assumptions": COMMON_ASSUME, "trusted_base": [],
+    "harnesses": [H("c05::" + n, "quick", 1200) for n in _c05],
+}
+
+PROPS["C07"] = {
+    "level": "model_checking", "level_text": "wip", "level_note": "wip", "not_claimed": True,
+    "functions": [], "bounds": "", "outside": "", "assumptions": COMMON_ASSUME, "trusted_base": [],
+    "harnesses": [H("c07::" + n, "quick", 1500) for n in ["c07_any_stream_no_storage_6", "c07_two_messages_any_schedule", "c07_truncated_tail_any_schedule", "c07_read_message_equals_slice_parse"]],
+}
+
+PROPS["C15"] = {
+    "level": "model_checking", "level_text": "wip", "level_note": "wip", "not_claimed": True,
+    "functions": [], "bounds": "", "outside": "", "assumptions": COMMON_ASSUME, "trusted_base": [],
+    "harnesses": [H("c15::" + n, "quick", 900) for n in ["c15_new_nonverbose_noext", "c15_new_nonverbose_ext_be", "c15_new_control", "c15_new_verbose_two_args",
+                  "c15_new_verbose_string", "c15_new_nettrace_le", "c15_new_nettrace_be", "c15_valid_rejects_mismatched_values"]],
+}
+
+PROPS["C16"] = {
+    "level": "model_checking", "level_text": "wip", "level_note": "wip", "not_claimed": True,
+    "functions": [], "bounds": "", "outside": "", "assumptions": COMMON_ASSUME, "trusted_base": [],
+    "harnesses": [H("c16::" + n, "quick", 900) for n in ["c16_bool_tyle_1", "c16_bool_tyle_15", "c16_u32_reserved_bits", "c16_raw_fixp_flag", "c16_id_bytes_after_nul"]],
+}
+
+PROPS["C10"] = {
+    "level": "model_checking", "level_text": "wip", "level_note": "wip", "not_claimed": True,
+    "functions": [], "bounds": "", "outside": "", "assumptions": COMMON_ASSUME, "trusted_base": [],
+    "harnesses": [H("c10::" + n, "quick", 900) for n in ["c10_level_distribution_new_buckets", "c10_level_distribution_merge_is_sum", "c10_merge_two_parts_a0",
+                  "c10_merge_two_parts_a1", "c10_merge_two_parts_a2", "c10_merge_two_parts_a3", "c10_merge_two_parts_a4", "c10_merge_three_parts_associative",
+                  "c10_scan_visits_each_message_once"]],
+}
